@@ -585,8 +585,9 @@ def gene_valley_locus(w, gid, chrom, p, strand):
     for k in range(14):
         w.make_read(chrom, [(gx[0][0] + 60 * (k % 7), gx[0][1]), (gx[1][0], gx[1][1] - 55 * k)], truth={"src": gid + ".t1", "class": "left-part"})
         w.make_read(chrom, [(gx[2][0] + 60 * (k % 7), gx[2][1]), (gx[3][0], gx[3][1] - 55 * k)], truth={"src": gid + ".t1", "class": "right-part"})
-    for k in range(2):
-        w.make_read(chrom, [(gx[0][0] + 3 + k, gx[0][1])] + gx[1:3] + [(gx[3][0], gx[3][1] - 5 - k)], truth={"src": gid + ".t1", "class": "bridge"})
+    # ONE bridging read (a coverage valley is a stretch covered by at most one read); it starts inside the second exon, i.e. it is stored
+    # after most reads of the left part
+    w.make_read(chrom, [(gx[1][0] + 120, gx[1][1]), gx[2], (gx[3][0], gx[3][1] - 5)], truth={"src": gid + ".t1", "class": "bridge"})
     return g, p + 42300
 
 
